@@ -45,12 +45,10 @@ def setAddr (s : AddrSet) : AddrFV :=
     addrs := s.filter fun x => x != ANY_ADDRESS && x != NO_ADDRESS }
 
 /-- value of key `k` at block `b` in a solved analysis -/
-def AnalysisResult.value {D : Type} (r : AnalysisResult D) (nbase : Nat) (dflt : D) (key : Key) (b : Nat) : D :=
-  match (r.keys.zipIdx).find? (·.1 == key) with
+def AnalysisResult.value {D : Type} (r : AnalysisResult D) (dflt : D) (key : Key) (b : Nat) : D :=
+  match r.vals.find? (·.1 == key) with
   | none => dflt
-  | some (_, j) =>
-    if j < nbase then (getMap r.base b [])[j]?.getD dflt
-    else (getMap r.gtx b [])[j - nbase]?.getD dflt
+  | some (_, m) => getMap m b dflt
 
 /-- GroupIndices._store_results: indices are cut by the largest possible size -/
 def storeIndices (sizes indices : NatSet) : NatSet :=
@@ -65,7 +63,7 @@ def Contexts.get (c : Contexts) (b : Nat) : BlockCtx := getMap c.ctx b {}
 /-- run the four analyses in tealer's order (GroupIndices first) and store their results -/
 def analyse (f : Function) : Except Err Contexts := do
   let gi ← runAnalysis groupIndicesAnalysis f (fun _ => [])
-  let giv (key : String) (b : Nat) : NatSet := gi.value 2 [] ⟨key, .self⟩ b
+  let giv (key : String) (b : Nat) : NatSet := gi.value [] ⟨key, .self⟩ b
   let sizes (b : Nat) := giv "GroupSize" b
   let indices (b : Nat) := storeIndices (sizes b) (giv "GroupIndex" b)
   -- remaining analyses in `dir(all_constraints)` order: AddrFields, FeeField, TxnType
@@ -73,12 +71,12 @@ def analyse (f : Function) : Except Err Contexts := do
   let fe ← runAnalysis feeAnalysis f indices
   let tt ← runAnalysis txnTypeAnalysis f indices
   let mk (kind : KeyKind) (b : Nat) (isSelf : Bool) : Ctx :=
-    let a (base : String) : AddrFV := setAddr (ad.value 4 addrNull ⟨base, kind⟩ b)
-    let fee : FeeValue := fe.value 1 feeNull ⟨"Fee", kind⟩ b
+    let a (base : String) : AddrFV := setAddr (ad.value addrNull ⟨base, kind⟩ b)
+    let fee : FeeValue := fe.value feeNull ⟨"Fee", kind⟩ b
     { isGtxn := !isSelf,
       sizes := if isSelf then sizes b else [],
       indices := if isSelf then indices b else [],
-      types := tt.value 1 [] ⟨"TransactionType", kind⟩ b,
+      types := tt.value [] ⟨"TransactionType", kind⟩ b,
       rekeyto := a "RekeyTo", closeto := a "CloseRemainderTo", assetcloseto := a "AssetCloseTo",
       sender := a "Sender",
       maxFee := if fee.isUnknown then MAX_UINT64 else fee.value,
